@@ -151,6 +151,26 @@ func c14Pathological() []*load.Case {
 		map[string]string{"a": hdr("a") + "import b { prefix b; } leaf l { type string; } }", "b": hdr("b") + "import a { prefix a; } leaf m { type string; } }"})
 	add("import-3-cycle", hdr("a")+"import b { prefix b; } }",
 		map[string]string{"a": hdr("a") + "import b { prefix b; } }", "b": hdr("b") + "import c { prefix c; } }", "c": hdr("c") + "import a { prefix a; } }"})
+	// the same cycles with every import pinned to a revision (matching, stale, absent)
+	for _, pin := range []struct{ id, ab, ba string }{{"stale", "1999-01-01", "1998-01-01"}, {"match", "2024-01-01", "2024-01-01"}, {"half", "1999-01-01", ""}} {
+		rd := func(d string) string {
+			if d == "" {
+				return ""
+			}
+			return " revision-date " + d + ";"
+		}
+		add("self-import-revision-"+pin.id, hdr("a")+"import a { prefix x;"+rd(pin.ab)+" } }", map[string]string{"a": hdr("a") + "import a { prefix x;" + rd(pin.ab) + " } }"})
+		add("self-import-no-revision-"+pin.id, "module a { namespace \"urn:a\"; prefix a; import a { prefix x;"+rd(pin.ab)+" } }", map[string]string{"a": "module a { namespace \"urn:a\"; prefix a; import a { prefix x;" + rd(pin.ab) + " } }"})
+		add("mutual-import-revision-"+pin.id, hdr("a")+"import b { prefix b;"+rd(pin.ab)+" } }", map[string]string{
+			"a": hdr("a") + "import b { prefix b;" + rd(pin.ab) + " } }",
+			"b": hdr("b") + "import a { prefix a;" + rd(pin.ba) + " } }"})
+		add("diamond-revision-"+pin.id, hdr("a")+"import b { prefix b;"+rd(pin.ab)+" } import c { prefix c; } }", map[string]string{
+			"b": hdr("b") + "import d { prefix d;" + rd(pin.ab) + " } }",
+			"c": hdr("c") + "import d { prefix d;" + rd(pin.ba) + " } }",
+			"d": hdr("d") + "typedef t { type string; } }"})
+		add("include-revision-"+pin.id, hdr("a")+"include s { revision-date "+pin.ab+"; } }", map[string]string{
+			"s": "submodule s { belongs-to a { prefix a; } include s { revision-date " + pin.ab + "; } }"})
+	}
 	add("self-include", hdr("a")+"include a; }", map[string]string{"a": hdr("a") + "include a; }"})
 	add("include-cycle", hdr("a")+"include s1; }", map[string]string{
 		"s1": "submodule s1 { belongs-to a { prefix a; } include s2; }",
@@ -304,6 +324,9 @@ func c14Cases(r *kit.Rng, tier string) ([]*load.Case, map[string]string) {
 		c2.ID += "|perm"
 		c2.Order = load.OrderSpec{Mode: "perm", Seed: r.Uint64()}
 		add(&c2, "pathological")
+	}
+	for _, c := range c14Matrix(thorough) {
+		add(c, "statement-placement-matrix")
 	}
 	// small escape- and comment-rich texts: every prefix and every token edit, in both tiers
 	for si, text := range c14Small {
@@ -661,7 +684,7 @@ func c14Batch(c *Check, tier string) int {
 		"batch_fingerprint":   batch.HashHex(),
 		"evaluations":         len(all),
 		"distinct_nontrivial": len(prints),
-		"rule": "cases: every corpus .yang file of the repository loaded whole (by text and through the opener), prefixes (quick: at and around 10 sampled token boundaries + 6 random offsets per file; thorough: every byte offset), single-token deletions/duplications/substitutions (quick: 8 tokens per file; thorough: every token), opener faults per (resource, n-th open) derived from the fault-free open log (missing, open error, read error/EOF/corrupt byte/duplicated chunk at seeded offsets, short reads, (n,EOF), serving another module incl. the importer itself, torn/failing cache), hand-written pathological sets (import/include/grouping/typedef/identity/leafref cycles, nesting beyond the 256-entry stack, token runs beyond the 64-token ring), generated two-module sets; map order permuted per case. " +
+		"rule": "cases: every corpus .yang file of the repository loaded whole (by text and through the opener), prefixes (quick: at and around 10 sampled token boundaries + 6 random offsets per file; thorough: every byte offset), single-token deletions/duplications/substitutions (quick: 8 tokens per file; thorough: every token), opener faults per (resource, n-th open) derived from the fault-free open log (missing, open error, read error/EOF/corrupt byte/duplicated chunk at seeded offsets, short reads, (n,EOF), serving another module incl. the importer itself, torn/failing cache), a statement-placement matrix (every statement kind of the grammar inside every kind of block, 50 x 86; thorough: also each twice), hand-written pathological sets (import/include/grouping/typedef/identity/leafref cycles, nesting beyond the 256-entry stack, token runs beyond the 64-token ring), generated two-module sets; map order permuted per case. " +
 			"distinct_nontrivial counts distinct (outcome, seam-log hash, error text, step count) among damaged or faulted cases",
 		"samples":             samples,
 		"sim_steps":           steps,
